@@ -176,18 +176,8 @@ func (s *Solver) lit(t *Term) string {
 		neg = true
 		t = t.a[0]
 	}
-	l, ok := s.lits[t.id]
-	if !ok {
-		s.emit(t)
-		if t.op == OpVar {
-			l = t.smtRef()
-		} else {
-			l = fmt.Sprintf("l%d", t.id)
-			s.send(fmt.Sprintf("(declare-const %s Bool)", l))
-			s.send(fmt.Sprintf("(assert (= %s %s))", l, t.smtRef()))
-		}
-		s.lits[t.id] = l
-	}
+	s.emit(t)
+	l := t.smtRef()
 	if neg {
 		return "(not " + l + ")"
 	}
